@@ -192,7 +192,18 @@ func runC05Schedule(r *rng, nEvents int, script []string) (c05Case, error) {
 			}
 		}
 	}
-	meta := newDatasetMeta(r, 2, pb.Space_Euclidean, [][]uint64{{1, 2, 3}}, 3)
+	// the replicas of the group: all three nodes, or - first step "G12" / "G1" - the listed ones, others joining later ("A3")
+	group := []uint64{1, 2, 3}
+	joinScript := false
+	if len(script) > 0 && script[0][0] == 'G' {
+		group = nil
+		for _, ch := range script[0][1:] {
+			group = append(group, uint64(ch-'0'))
+		}
+		script = script[1:]
+		joinScript = true
+	}
+	meta := newDatasetMeta(r, 2, pb.Space_Euclidean, [][]uint64{append([]uint64(nil), group...)}, uint32(len(group)))
 	if err := c.createDataset(meta); err != nil {
 		return cs, err
 	}
@@ -201,7 +212,18 @@ func runC05Schedule(r *rng, nEvents int, script []string) (c05Case, error) {
 	for i := range ids {
 		ids[i] = uuidFrom(r).String()
 	}
-	alive := map[uint64]bool{1: true, 2: true, 3: true}
+	alive := map[uint64]bool{}
+	for _, n := range group {
+		alive[n] = true
+	}
+	inGroup := func(n uint64) bool {
+		for _, m := range group {
+			if m == n {
+				return true
+			}
+		}
+		return false
+	}
 	cut := map[uint64]bool{}
 	restart := func(n uint64) error {
 		node := c.nodes[n]
@@ -221,7 +243,7 @@ func runC05Schedule(r *rng, nEvents int, script []string) (c05Case, error) {
 		// the allocator loads raft with the partition's node ids on every start; raft refusing the stored state (a panic
 		// in RestartNode) is the replica failing to resume from what it made durable
 		var lerr error
-		if panicked, msg := recoverPanic(func() { lerr = ds.VerifLoadRaft(0, []uint64{1, 2, 3}) }); panicked {
+		if panicked, msg := recoverPanic(func() { lerr = ds.VerifLoadRaft(0, append([]uint64(nil), group...)) }); panicked {
 			return fmt.Errorf("panic: %s", msg)
 		}
 		return lerr
@@ -315,7 +337,7 @@ func runC05Schedule(r *rng, nEvents int, script []string) (c05Case, error) {
 			c.nodes[n].setUnreachable(true)
 			cs.Events = append(cs.Events, c05Event{Kind: "crash", Node: n})
 		case 'R':
-			for _, m := range nodes {
+			for _, m := range group {
 				if !alive[m] {
 					c.nodes[m].setUnreachable(false)
 					if err := restart(m); err != nil {
@@ -326,6 +348,33 @@ func runC05Schedule(r *rng, nEvents int, script []string) (c05Case, error) {
 					alive[m] = true
 					cs.Events = append(cs.Events, c05Event{Kind: "restart", Node: m})
 				}
+			}
+		case 'A':
+			// node n becomes a replica of the running group: the catalogue change is applied on every node (on n itself
+			// partition.addNode starts the group's raft node over n's empty log store), then the leader proposes the join
+			if inGroup(n) {
+				break
+			}
+			ensureLeader()
+			c.nodes[n].datasets[dsid].VerifWrapWAL(0, func(w wal.WAL) wal.WAL { return c.wrapWAL(n, 0, w) })
+			for _, m := range nodes {
+				c.nodes[m].datasets[dsid].VerifAddNode(0, n)
+			}
+			meta.Partitions[0].NodeIds = append(meta.Partitions[0].NodeIds, n)
+			group = append(group, n)
+			alive[n] = true
+			cs.Events = append(cs.Events, c05Event{Kind: "add-replica", Node: n})
+			if c.nodes[n].datasets[dsid].VerifRaft(0) == nil {
+				viol = append(viol, fmt.Sprintf("node %d was added to the partition and did not start its raft node", n))
+				broken = true
+				break
+			}
+			if l := leaderOf(); l == 0 {
+				viol = append(viol, "no leader to propose the join")
+				broken = true
+			} else if err := c.nodes[l].datasets[dsid].VerifRaft(0).ProposeJoinAndWait(n, ""); err != nil {
+				viol = append(viol, fmt.Sprintf("the join of node %d was not applied: %v", n, err))
+				broken = true
 			}
 		case 'S':
 			ensureLeader()
@@ -345,7 +394,7 @@ func runC05Schedule(r *rng, nEvents int, script []string) (c05Case, error) {
 			}
 		}
 	}
-	for len(cs.Events) < nEvents && !broken {
+	for len(cs.Events) < nEvents && !broken && !joinScript {
 		x := r.intn(100)
 		nAlive, nUp := 0, 0
 		for _, n := range nodes {
@@ -427,7 +476,7 @@ func runC05Schedule(r *rng, nEvents int, script []string) (c05Case, error) {
 	for n := range cut {
 		c.nodes[n].setUnreachable(false)
 	}
-	for _, n := range nodes {
+	for _, n := range group {
 		if !alive[n] {
 			c.nodes[n].setUnreachable(false)
 			if err := restart(n); err != nil {
@@ -454,19 +503,28 @@ func runC05Schedule(r *rng, nEvents int, script []string) (c05Case, error) {
 		}
 		deadline := time.Now().Add(6 * time.Second)
 		for time.Now().Before(deadline) {
-			a, b2, c3 := fmt.Sprint(dump(1)), fmt.Sprint(dump(2)), fmt.Sprint(dump(3))
-			st1 := c.nodes[1].datasets[dsid].VerifRaft(0).VerifStatus()
-			if a == b2 && b2 == c3 && st1.Lead != 0 && st1.Applied == st1.Commit {
+			same := true
+			for _, n := range group[1:] {
+				if fmt.Sprint(dump(n)) != fmt.Sprint(dump(group[0])) {
+					same = false
+				}
+			}
+			st1 := c.nodes[group[0]].datasets[dsid].VerifRaft(0).VerifStatus()
+			if same && st1.Lead != 0 && st1.Applied == st1.Commit {
 				cs.Converged = true
 				break
 			}
 			ensureLeader()
 			time.Sleep(30 * time.Millisecond)
 		}
-		cs.Final = dump(1)
+		cs.Final = dump(group[0])
 		if !cs.Converged {
 			diag := ""
-			for _, n := range nodes {
+			dumps := ""
+			for _, n := range group {
+				dumps += fmt.Sprintf("%v | ", dump(n))
+			}
+			for _, n := range group {
 				g := c.nodes[n].datasets[dsid].VerifRaft(0)
 				if g == nil {
 					diag += fmt.Sprintf(" node %d: no group;", n)
@@ -475,9 +533,36 @@ func runC05Schedule(r *rng, nEvents int, script []string) (c05Case, error) {
 				s := g.VerifStatus()
 				diag += fmt.Sprintf(" node %d: term=%d lead=%d commit=%d applied=%d state=%v;", n, s.Term, s.Lead, s.Commit, s.Applied, s.RaftState)
 			}
-			viol = append(viol, fmt.Sprintf("replicas did not converge after faults stopped: %v | %v | %v (%s)", dump(1), dump(2), dump(3), diag))
+			viol = append(viol, fmt.Sprintf("replicas did not converge after faults stopped: %s(%s)", dumps, diag))
 		}
 	}
+	// log matching on what is durable: a position at or below the durable commit index of two replicas holds the same term
+	vmu.Lock()
+	for _, x := range nodes {
+		for _, y := range nodes {
+			vx, vy := views[x], views[y]
+			if x >= y || vx == nil || vy == nil {
+				continue
+			}
+			vx.mu.Lock()
+			vy.mu.Lock()
+			lim := vx.hard.Commit
+			if vy.hard.Commit < lim {
+				lim = vy.hard.Commit
+			}
+			for i := uint64(1); i <= lim; i++ {
+				tx, okx := vx.terms[i]
+				ty, oky := vy.terms[i]
+				if okx && oky && tx != ty {
+					viol = append(viol, fmt.Sprintf("forked history: nodes %d and %d both hold position %d as committed, with terms %d and %d", x, y, i, tx, ty))
+					break
+				}
+			}
+			vy.mu.Unlock()
+			vx.mu.Unlock()
+		}
+	}
+	vmu.Unlock()
 	vmu.Lock()
 	for n, v := range views {
 		v.mu.Lock()
@@ -497,7 +582,7 @@ func runC05Schedule(r *rng, nEvents int, script []string) (c05Case, error) {
 
 func runC05(a *args) error {
 	r := newRng(a.seed)
-	st := newStats("3-replica partition groups on a simulated cluster: four scripted prologues (the fourth: a replica brought up to date by a snapshot message after the others compacted) (a deposed leader's uncommitted tail overwritten by a shorter suffix, then a restart of that replica - twice; writes, idling, local snapshot + compaction on every replica, then each replica restarted in turn) and schedules of 25..45 events — writes through any connected node (55%), cutting one node off / healing (message loss in both directions), crash of one replica (clean stop or abrupt) and restart through the real boot path with the partition's node ids; every raft message checked against the sender's durable state (vote grants, append acknowledgements, terms), every Save checked for a hard state moving backwards, every reopened log compared with the log that was made durable (last index, term at every index), convergence and explained contents after faults stop; non-trivial = contains a crash+restart and a cut; distinct by hash of the event list")
+	st := newStats("3-replica partition groups on a simulated cluster: six scripted prologues (the fifth and sixth: a replica added to a running group through partition.addNode and a proposed join; the fourth: a replica brought up to date by a snapshot message after the others compacted) (a deposed leader's uncommitted tail overwritten by a shorter suffix, then a restart of that replica - twice; writes, idling, local snapshot + compaction on every replica, then each replica restarted in turn) and schedules of 25..45 events — writes through any connected node (55%), cutting one node off / healing (message loss in both directions), crash of one replica (clean stop or abrupt) and restart through the real boot path with the partition's node ids; every raft message checked against the sender's durable state (vote grants, append acknowledgements, terms), every Save checked for a hard state moving backwards, every reopened log compared with the log that was made durable (last index, term at every index), convergence and explained contents after faults stop; non-trivial = contains a crash+restart and a cut; distinct by hash of the event list")
 	var cases []c05Case
 	seen := map[string]bool{}
 	for i := 0; i < a.n; i++ {
@@ -518,6 +603,12 @@ func runC05(a *args) error {
 			// brings it up to date with a snapshot message (the received snapshot, the hard state and the entries of that
 			// Ready are one durable write)
 			script = []string{"W1", "W2", "S", "K3", "S", "W1", "W2", "W1", "W2", "S", "P1", "P2", "R", "S", "W1", "S"}
+		case 4:
+			// a third replica joins a running two-replica group: it must take the group's log, not start one of its own
+			script = []string{"G12", "W1", "W2", "W1", "S", "A3", "S", "W1", "W3", "W2", "S"}
+		case 5:
+			// one replica grows to two, then to three
+			script = []string{"G1", "W1", "W1", "W1", "S", "A2", "S", "W1", "W2", "A3", "S", "W3", "S"}
 		}
 		cs, err := runC05Schedule(r.fork(), 25+r.intn(21), script)
 		if err != nil {
@@ -548,6 +639,10 @@ func runC05(a *args) error {
 				key = "raft-glue:sent-before-durable"
 			} else if strings.Contains(v, "converge") {
 				key = "raft-glue:no-convergence"
+			} else if strings.Contains(v, "forked history") {
+				key = "raft-glue:forked-history"
+			} else if strings.Contains(v, "join") || strings.Contains(v, "added to the partition") {
+				key = "raft-glue:join-failed"
 			}
 			st.ImplFailures = append(st.ImplFailures, implFailure{Case: i, What: v, Key: key, Input: cs.Events})
 		}
